@@ -96,7 +96,8 @@ def subject(k):
                 t = f[1]
                 continue
             if t[2] and f[0] in ("builtin", "global", "ext", "attr"):
-                if f == ("builtin", "len") or f == ("builtin", "isinstance") or f == ("builtin", "type") or f[0] == "attr":
+                if f == ("builtin", "len") or f == ("builtin", "isinstance") or f == ("builtin", "type") or f[0] == "attr" or \
+                        (f == ("builtin", "int") and len(t[2]) == 1):      # a fact about int(x) is about x (same group as `x is None`)
                     t = t[2][0]
                     continue
             break
